@@ -80,5 +80,8 @@ def check(ctx: Ctx) -> None:
         for suffix in ("_AND_FILLED", "_AND_EMPTY"):
             ctx.ob("C13.suffix", base + suffix, base + suffix in members, f"{base + suffix} is not a member of RequirementValidationValue", file="src/ahbicht/models/validation_values.py")
     ctx.soft(lambda: valsweep.report(ctx, ("C13.tree", "C12.order")))
+    from ..purity import check_path
+    ctx.soft(lambda: check_path(ctx, "C13.state", [f"{VAL}.validate_deep_anwendungshandbuch", f"{VAL}.validate_segment_level", f"{VAL}.validate_segment_group", f"{VAL}.validate_segment", f"{VAL}.validate_data_element"],
+                                "the status of a node must not depend on earlier validations"))
     ctx.assume("the expression evaluation below validation is summarised by the reference semantics (decided for the real pipeline by C02, C04-C10)")
     ctx.assume("L5: asyncio.gather returns results in argument order; every gathered coroutine runs in a copy of the context")
